@@ -51,7 +51,7 @@ def run(R, tier, seed, driver_ok):
         if mode == 0:
             bounds = None
         elif mode == 1:
-            bounds = [1e9, 1e-9]                         # every prior is feasible
+            bounds = [1e9, 1e-9] if rep % 4 != 3 else [1e24, 1e-24]     # every prior is feasible (also in the other units)
         else:
             dist = np.sqrt(((pairs[:, 0] - pairs[:, 1]) ** 2).sum(1))
             lo, hi = np.percentile(dist, [20, 80])
